@@ -141,6 +141,12 @@ func (c *Ctx) InModule(fn *ssa.Function) bool {
 	return path == modPath || strings.HasPrefix(path, modPath+"/")
 }
 
+// libFn: a function of one of the module's library packages (wherever in the module the
+// code lives: the root package, pkg/…, internal/… — not the example commands).
+func (c *Ctx) libFn(fn *ssa.Function) bool {
+	return c.InModule(fn) && !c.isCmd(fn)
+}
+
 func (c *Ctx) isCmd(fn *ssa.Function) bool {
 	p := fnPkg(fn)
 	return p != nil && strings.HasPrefix(p.Pkg.Path(), modPath+"/cmd/")
